@@ -278,7 +278,65 @@ def _do(c, op, ctx):
         return fp(c.get())
     if name == 'avg_pop':
         return fp(c.pop())
+    # recipes on a Cache / FanoutCache target: one complete use of the primitive
+    if name.startswith('r_'):
+        return _recipe(c, op)
     raise ValueError('unknown op %r' % (name,))
+
+
+def _recipe(c, op):
+    from . import seams
+    dc = seams.dc
+    name = op['op']
+    if name == 'r_lock':
+        lock = dc.Lock(c, 'r-lock')
+        with lock:
+            held = lock.locked()
+        return fp([held, lock.locked()])
+    if name == 'r_rlock':
+        lock = dc.RLock(c, 'r-rlock')
+        with lock:
+            with lock:
+                pass
+        return fp(c.get('r-rlock')[1])
+    if name == 'r_sem':
+        sem = dc.BoundedSemaphore(c, 'r-sem', value=2)
+        with sem:
+            inside = c.get('r-sem')
+        return fp([inside, c.get('r-sem')])
+    if name == 'r_avg_add':
+        avg = dc.Averager(c, 'r-avg')
+        avg.add(vals.dec(op['v']))
+        return fp(avg.get())
+    if name == 'r_avg_pop':
+        return fp(dc.Averager(c, 'r-avg').pop())
+    if name == 'r_memo':
+        calls = []
+
+        def double(x):
+            calls.append(x)
+            return x * 2
+        double.__module__, double.__qualname__ = 'recipes', 'double'
+        fn = c.memoize(name='r-memo')(double)
+        return fp([fn(op.get('x', 21)), fn(op.get('x', 21)), len(calls)])
+    if name == 'r_stampede':
+        calls = []
+
+        def triple(x):
+            calls.append(x)
+            return x * 3
+        fn = dc.memoize_stampede(c, 1000, name='r-stampede')(triple)
+        return fp([fn(op.get('x', 7)), fn(op.get('x', 7)), len(calls)])
+    if name == 'r_throttle':
+        seen = []
+        fn = dc.throttle(c, 2, 1, name='r-throttle', time_func=seams.SIM_TIME.time, sleep_func=seams.SIM_TIME.sleep)(lambda: seen.append(1))
+        fn()
+        return fp(len(seen))
+    if name == 'r_barrier':
+        seen = []
+        fn = dc.barrier(c, dc.Lock, name='r-barrier')(lambda: seen.append(1) or 'done')
+        return fp([fn(), len(seen), 'r-barrier' in c])
+    raise ValueError('unknown recipe op %r' % (name,))
 
 
 def _txn(c, op, ctx):
